@@ -82,9 +82,25 @@ def render_module(ns, module_cases, cases, with_holders):
                 lines.append("  0 [+%d]  %s  f%d" % (w, tn, wi))
             lines.append("  63 [+1]  Flag  anchor")
             lines.append("")
+            # ... and every width once more in the tightest byte-sized container (the carrier integer type of the field view
+            # then ranges over uint8/16/32/64, not only uint64)
+            for wi, w in enumerate(c["widths"]):
+                cw = 8 * ((w + 7) // 8)
+                lines.append("bits Tight%sx%d:" % (tn, wi))
+                lines.append("  0 [+%d]  %s  f" % (w, tn))
+                if w < cw:
+                    lines.append("  %d [+1]  Flag  anchor" % (cw - 1))
+                lines.append("")
             lines.append("struct Holder%s:" % tn)
             lines.append("  0 [+8]  Fields%s  f" % tn)
             lines.append('    [byte_order: "LittleEndian"]')
+            off = 8
+            for wi, w in enumerate(c["widths"]):
+                nb = (w + 7) // 8
+                lines.append("  %d [+%d]  Tight%sx%d  t%d" % (off, nb, tn, wi, wi))
+                if nb > 1:
+                    lines.append('    [byte_order: "%s"]' % ("LittleEndian" if wi % 2 == 0 else "BigEndian"))
+                off += nb
             lines.append("")
     return "\n".join(lines) + "\n", spans
 
@@ -260,10 +276,12 @@ def driver_source(header_name, ns, cases):
             src.append("    printf(\"%s{\\\"hasName\\\":%%d,\\\"name\\\":\", n ? 1 : 0); drv::put_string(n ? n : \"\"); printf(\",\\\"known\\\":%%d,\\\"os\\\":\", gm::EnumIsKnown(e) ? 1 : 0); drv::put_string(os.str().c_str()); printf(\"}\"); }" % ("," if k else ""))
         src.append('  printf("],\\"fields\\":[");')
         first = True
+        total = 8 + sum((w + 7) // 8 for w in c["widths"])
         for wi, w in enumerate(c["widths"]):
+          for acc in ("f().f%d()" % wi, "t%d().f()" % wi):
             for k, val in enumerate(c["values"]):
                 lit = cpp_literal(LANDMARKS[val["lm"] - 1] + val["d"])
-                src.append("  { alignas(8) unsigned char buf[8] = {0}; auto view = gm::MakeHolder%sView(buf, sizeof buf); auto f = view.f().f%d();" % (tn, wi))
+                src.append("  { alignas(8) unsigned char buf[%d] = {0}; auto view = gm::MakeHolder%sView(buf, sizeof buf); auto f = view.%s;" % (total, tn, acc))
                 src.append("    E e = static_cast<E>(static_cast<U>(%s)); g_chk = 0; bool could = f.CouldWriteValue(e); bool tried = f.TryToWrite(e); bool ok = f.Ok();" % lit)
                 src.append("    printf(\"%s{\\\"w\\\":%d,\\\"vi\\\":%d,\\\"could\\\":%%d,\\\"tried\\\":%%d,\\\"ok\\\":%%d,\\\"chk\\\":%%d,\\\"v\\\":\", could ? 1 : 0, tried ? 1 : 0, ok ? 1 : 0, g_chk); drv::put_image(ok ? drv::image(f.Read()) : 0); printf(\"}\"); }" % ("" if first else ",", w, k))
                 first = False
